@@ -71,7 +71,9 @@ def run(ctx):
     def wrapped(ctx_, imports, checker, cases, **kw):
         failing, log = orig(ctx_, imports, checker, cases, **kw)
         if checker == CFG["checker"]:
-            _classify_batch(ctx_, [cases[i] for (i, a, o) in failing if not o])
+            # only a case on which the implementation behaves exactly like the model of the pinned code can be an
+            # instance of a finding known for that code; anything else the oracle rejects is a new violation
+            _classify_batch(ctx_, [cases[i] for (i, a, o) in failing if a and not o])
         return failing, log
 
     vlib.coq_eval_cases = wrapped
